@@ -11,6 +11,7 @@ import (
 	"encoding/json"
 	"fmt"
 	"math/rand"
+	"os"
 	"path/filepath"
 	"strings"
 	"sync"
@@ -67,6 +68,8 @@ func concretise(class string, rng *rand.Rand, allowNUL bool) string {
 		return " " + core + " "
 	case "long64k":
 		return strings.Repeat(core+" ", 64*1024/(len(core)+1))
+	case "over_limit":
+		return "x" + strings.Repeat(core+" ", 11*1024*1024/(len(core)+1)) + "y"
 	case "html200k":
 		return "x" + strings.Repeat("<&>", 200*1024/3) + "y"
 	case "json_like":
@@ -100,6 +103,7 @@ func (t *textRunner) runCase(c textCase, idx int, seed int64) (*Obs, error) {
 		body = s
 	}
 	var id string
+	var logBefore []byte
 	rejected := false
 	jsonIn := func(m map[string]any) []byte { b, _ := json.Marshal(m); return b }
 	create := func(kind string, title, body string, mode string) (string, bool) {
@@ -133,6 +137,7 @@ func (t *textRunner) runCase(c textCase, idx int, seed int64) (*Obs, error) {
 		if !ok {
 			return nil, fatalf("text driver: cannot create the item to update")
 		}
+		logBefore, _ = os.ReadFile(st.LogPath())
 		var r RunResult
 		switch c.Mode {
 		case "flags":
@@ -211,6 +216,11 @@ func (t *textRunner) runCase(c textCase, idx int, seed int64) (*Obs, error) {
 	}
 	rel := "rejected"
 	relAfter := "rejected"
+	logNow, _ := os.ReadFile(st.LogPath())
+	if rejected && c.Cmd != "set" {
+		// nothing may have been created
+		logBefore = logNow[:0]
+	}
 	if !rejected {
 		rel = read()
 		switch c.Follow {
@@ -234,6 +244,8 @@ func (t *textRunner) runCase(c textCase, idx int, seed int64) (*Obs, error) {
 		}
 		relAfter = read()
 	}
+	readable := st.run(nil, nil, "--json", "list", "--all").Exit == 0
+	unchanged := string(logBefore) == string(logNow)
 	sample := s
 	if len(sample) > 60 {
 		sample = sample[:60] + "…"
@@ -241,9 +253,9 @@ func (t *textRunner) runCase(c textCase, idx int, seed int64) (*Obs, error) {
 	o := &Obs{Tag: "e8", Cmd: Cmd{"name": "text", "mode": "json", "case": c, "sample": sample, "len": len(s)},
 		Reply: Reply{IDs: []string{}, Edges: [][2]string{}, Pruned: []string{}}, Out: outFacts{JSON: true, Values: 1},
 		Pre: map[string]any{}, Post: map[string]any{}, LogPre: []map[string]any{}, LogPost: []map[string]any{}, Gone: []string{},
-		Readable: true, ListShow: true, Facts: map[string]any{"rel": rel, "rel_after": relAfter}, Only: []string{"C17_roundtrip", "C17_stays", "C17_accepted"},
+		Readable: true, ListShow: true, Facts: map[string]any{"rel": rel, "rel_after": relAfter}, Only: []string{"C17_roundtrip", "C17_stays", "C17_accepted", "C17_overlimit"},
 		Procs: []procRec{}, Readers: []readerRec{}, After: []afterRec{},
-		Text: map[string]any{"case": c, "rel": rel, "rel_after": relAfter}}
+		Text: map[string]any{"case": c, "rel": rel, "rel_after": relAfter, "store_readable": readable, "store_unchanged": unchanged}}
 	return o, nil
 }
 
